@@ -1,5 +1,5 @@
 (* C22 — coin registry: fresh ids, owner-only control, minting within max supply.  Theorems only. *)
-From Minter Require Import Base Ledger LedgerFacts LedgerTx LedgerProps LedgerCons LedgerReg LedgerExample.
+From Minter Require Import Base Ledger LedgerFacts LedgerTx LedgerProps LedgerCons LedgerReg LedgerUnique LedgerExample.
 From Coq Require Import ZArith List.
 Import ListNotations.
 Open Scope Z_scope.
@@ -59,8 +59,56 @@ Example C22_example :
   snd (deliver s1 (mk_tx 11 2 (MintToken 1 4001))) = 206.
 Proof. vm_compute. repeat split. Qed.
 
+
+(* active tickers are unique: along any history in which no recreation wraps a ticker's uint16 version
+   counter (ops_bound), ids stay distinct and every ticker has at most one active (version 0) coin *)
+Theorem C22_active_tickers_unique : forall ops s, uinv s -> ops_bound s ops ->
+  uinv (run_ops s ops) /\
+  forall c1 c2, In c1 (s_coins (run_ops s ops)) -> In c2 (s_coins (run_ops s ops)) ->
+                c_ver c1 = 0 -> c_ver c2 = 0 -> c_sym c1 = c_sym c2 -> c1 = c2.
+Proof.
+  intros ops s Hu Hb. pose proof (run_ops_uinv ops s Hu Hb) as H. split; [exact H|].
+  intros c1 c2. apply uinv_unique. exact H.
+Qed.
+
+(* without that bound the statement is false of the model (and of the code: types.CoinVersion is uint16 and
+   RecreateToken stores maxVersion+1): recreating a ticker whose archived versions reach 65535 gives the
+   archived coin version 0 again, next to the new active coin *)
+Definition wrap_state : st :=
+  {| s_bal := [(11, 0, 100000)]; s_nonce := [];
+     s_coins := [ {| c_id := 1; c_sym := 4242; c_ver := 65535; c_vol := 10; c_max := 10; c_mint := true; c_burn := true |};
+                  {| c_id := 2; c_sym := 4242; c_ver := 0; c_vol := 10; c_max := 10; c_mint := true; c_burn := true |} ];
+     s_symowner := [(4242, 11)]; s_ncoins := 2; s_rpool := 0; s_used := []; s_msig := []; s_frozen := []; s_height := 50;
+     s_prices := ex_prices; s_base_sym := 777 |}.
+
+Theorem C22_unique_refuted_at_version_wrap :
+  exists s t, uinv s /\ snd (deliver s t) = 0 /\ ~ uinv (fst (deliver s t)) /\
+              count_active (s_coins (fst (deliver s t))) 4242 = 2%nat.
+Proof.
+  exists wrap_state, (mk_tx 11 1 (RecreateToken 4242 1 10 10 true true)).
+  split; [|split; [vm_compute; reflexivity|split; [|vm_compute; reflexivity]]].
+  - split; [|split].
+    + cbn. repeat constructor; cbn; intuition discriminate.
+    + intros r [<-|[<-|[]]]; cbn; lia.
+    + intros sym. unfold count_active, wrap_state, act. cbn [s_coins filter c_sym c_ver].
+      replace (65535 =? 0) with false by reflexivity. rewrite andb_false_r. destruct (4242 =? sym); cbn; lia.
+  - intros (_ & _ & Hc). specialize (Hc 4242). vm_compute in Hc. lia.
+Qed.
+
+Example C22_unique_nonvacuous :
+  let ops := [OpTx ex_create; OpTx ex_mint; OpTx (mk_tx 11 3 (RecreateToken 4242 1 10 10 true true))] in
+  uinv ex_state /\ ops_bound ex_state ops /\ s_ncoins (run_ops ex_state ops) = 2 /\
+  map (fun c => (c_id c, c_ver c)) (s_coins (run_ops ex_state ops)) = [(1, 1); (2, 0)].
+Proof.
+  split; [split; [constructor|split; [intros r []|intros sym; cbn; lia]]|].
+  split; [cbn [ops_bound op_bound]; unfold recreate_bound; repeat split; vm_compute; reflexivity|].
+  split; vm_compute; reflexivity.
+Qed.
+
 Print Assumptions C22_create_fresh_id.
 Print Assumptions C22_ids_never_reused.
 Print Assumptions C22_recreate.
 Print Assumptions C22_edit_owner.
 Print Assumptions C22_mint.
+Print Assumptions C22_active_tickers_unique.
+Print Assumptions C22_unique_refuted_at_version_wrap.
